@@ -133,6 +133,8 @@ fn opts_for(prop: &str, r: &mut Rng) -> GenOpts {
         "C02" => {
             o.max_nodes = 12;
             o.max_solutions = 8;
+            // several failing nodes in one level: which one is reported must not depend on the schedule
+            o.p_fail = *r.pick(&[0.04, 0.04, 0.3, 0.6]);
         }
         "C03" => {
             o.p_post = 0.5;
@@ -250,6 +252,7 @@ fn permutation_check(e: &mut Eng, sc: &Scenario, r: &mut Rng, canonical: bool) {
                     diffs.push(format!("failing solutions {a:?} vs {b:?}"));
                 }
             }
+            (RealVerdict::Panic(_), RealVerdict::Panic(_)) | (RealVerdict::Other(_), RealVerdict::Other(_)) => {}
             (a, b) => diffs.push(format!("verdict {} vs {}", verdict_name(a), verdict_name(b))),
         }
         let conflict = info0.d2_conflict || info2.d2_conflict || has_conflict(sc);
